@@ -347,7 +347,18 @@ def rule_shared_fresh(R):
     clause_fresh_reset(R, "fresh")
 
 
+def rule_shared_resume(R):
+    """"never retransmitted within one connection", "byte-identical": a packet the transport accepted in part continues at the
+    recorded offset -- the offset stored is the count reported (C13's store rule) and every write starts at the entry's
+    recorded `written` (C15's write rule).  An offset that is narrowed, restarted or skipped re-sends or drops bytes."""
+    from .c13 import rule_store as _s
+    from .c15 import rule_write as _w
+    _s(R)
+    _w(R)
+
+
 def run(R):
+    R.rule("resume", rule_shared_resume)
     R.rule("fresh", rule_shared_fresh)
     R.rule("reason", rule_reason)
     R.rule("limit", rule_limit)
